@@ -36,7 +36,7 @@ def contents(pat):
     return [cell_of(n) for line in pat.data for n in line]
 
 
-def run_history(api, rnd, tid, lines, tracks, attached, edits, prefill, fresh=False):
+def run_history(api, rnd, tid, lines, tracks, attached, edits, prefill, fresh=False, blind_all=False):
     """edits: list of dicts {setter, notes: [(k, cell)] in call/yield order, fail_at: index into notes or None}
     fresh: the pattern is not looked at (no .data / .raw_data access, no prefill) before the first edit has ended and the
     first edit's callable is blind: the contents before are those of a newly constructed pattern - all cells empty."""
@@ -52,7 +52,7 @@ def run_history(api, rnd, tid, lines, tracks, attached, edits, prefill, fresh=Fa
     tr = {"id": tid, "cells": contents(pat) if not fresh else [[0, 0, 0, 0, 0] for _ in range(lines * tracks)], "events": []}
     ev = tr["events"]
     for ei, ed in enumerate(edits):
-        blind = fresh and ei == 0
+        blind = (fresh and ei == 0) or blind_all       # (blind_all: large patterns - the callable does not log what it sees)
 
         def seen(p):
             return {"blind": True, "seen": []} if blind else {"blind": False, "seen": contents(p)}
@@ -195,6 +195,15 @@ def run(ctx):
             if fail_at is not None and fail_at > len(e1["notes"]):
                 continue
             traces.append(run_history(api, rnd, "f%d" % len(traces), ln, tk, attached, [e1, edit("gen", nc, None, partial=True)], [], fresh=True))
+    # scale: patterns of more than 256 lines / 16+ tracks (one edit each: complete, failing late, sparse generator)
+    for (ln, tk) in ((257, 2), (300, 5), (40, 32)):
+        nc = ln * tk
+        for setter, fa in (("gen", None), ("fn", None), ("gen", nc - 1), ("fn", nc - 3)):
+            e1 = edit(setter, nc, fa, partial=(setter == "gen" and fa is None))
+            if fa is not None:
+                e1["fail_at"] = min(fa, len(e1["notes"]) - 1)
+            e1.pop("reuse", None)
+            traces.append(run_history(api, rnd, "big%d" % len(traces), ln, tk, setter == "gen", [e1], [rcell() for _ in range(nc)], blind_all=True))
     # random histories of 1-4 edits on larger shapes
     for _ in range(150 if q else 2500):
         ln, tk = rnd.randrange(1, 7), rnd.randrange(1, 5)
